@@ -42,7 +42,7 @@ Inductive ev :=
 | XInvalidateExpired (ret : Z)
 | XLookupNonExpired (id : N) (found : bool)
 | XImport (id tag addr cmd : N) (lease : Z)
-| XAnnounce (id tag addr : N) (valid : str).  (* storeClientSession for a post-auth ad announcing this ValidCommands string *)   (* a previously used id registered again: Store, then MapCommand(tag, addr, cmd, id) *)
+| XAnnounce (id tag addr : N) (valid : str) (dur lease : Z).  (* storeClientSession for a post-auth ad announcing this ValidCommands string *)   (* a previously used id registered again: Store, then MapCommand(tag, addr, cmd, id) *)
 
 (* tables of tags, addresses, commands (decimal strings); session duration and lease announced by the servers *)
 Record tables := { t_tags : list str; t_addrs : list str; t_cmds : list str; t_dur : Z; t_lease : Z }.
@@ -184,9 +184,12 @@ Definition step (tb : tables) (st : cache * Z) (e : ev) : option (cache * Z) :=
   | XLookupNonExpired id found =>
       let '(c', r) := lookup_nonexpired c now (sid_of id) in
       if Bool.eqb (match r with Some _ => true | None => false end) found then Some (c', now) else None
-  | XAnnounce id tagi addri valid =>
+  | XAnnounce id tagi addri valid dur lease =>
       match full_of tb (SFullOk id valid true) with
-      | FOk fo => Some (store_client_session c now (nth_str (t_tags tb) tagi) (nth_str (t_addrs tb) addri) fo, now)
+      | FOk fo0 =>
+          let fo := {| f_sid := f_sid fo0; f_user := f_user fo0; f_valid := f_valid fo0; f_dur := dur; f_lease := lease;
+                       f_key := f_key fo0; f_authmethods := f_authmethods fo0; f_crypto := f_crypto fo0 |} in
+          Some (store_client_session c now (nth_str (t_tags tb) tagi) (nth_str (t_addrs tb) addri) fo, now)
       | FFail => None
       end
   | XImport id tagi addri cmdi lease =>
@@ -255,6 +258,14 @@ Definition n203 : N := 203%N.
 Definition n250 : N := 250%N.
 Definition z0 : Z := 0.
 Definition z950 : Z := 950.
+Definition z2100 : Z := 2100.
+Definition zm5 : Z := -5.
+Definition zm7 : Z := -7.
+Definition zm1500 : Z := -1500.
+Definition zm500 : Z := -500.
+Definition zhuge : Z := 1099511627776.          (* 2^40 s: the nanosecond count wraps *)
+Definition zover : Z := 9223372037.             (* first whole second beyond int64 nanoseconds *)
+Definition zmaxok : Z := 9223372036.            (* last whole second within int64 nanoseconds *)
 Definition z1 : Z := 1.
 Definition z2 : Z := 2.
 Definition z3 : Z := 3.
